@@ -201,7 +201,7 @@ def check_stage_grammar(events, n_instr, crashed=False):
     return problems
 
 
-def check_fields(events, expected_paths, n_mw, spy_paths=None, crashed=False, no_call_paths=()):
+def check_fields(events, expected_paths, n_mw, spy_paths=None, crashed=False, no_call_paths=(), aborted=()):
     """Field hooks exactly once per resolved field, start before resolver, end after; middlewares
     traversed exactly once each, last listed outermost."""
     problems = []
@@ -212,7 +212,16 @@ def check_fields(events, expected_paths, n_mw, spy_paths=None, crashed=False, no
             d = starts if e["edge"] == "start" else ends
             d[e["path"]] = d.get(e["path"], 0) + 1
             (t_start if e["edge"] == "start" else t_end)[e["path"]] = e["t"]
-    exp = set(expected_paths)
+    # fields below a field that a failing type resolver nulled may or may not have been reached (or
+    # finished) when the response was complete: nothing is demanded of them
+    aborted = [tuple(a) for a in aborted]
+
+    def below_aborted(p):
+        return any(len(p) > len(a) and tuple(p[:len(a)]) == a for a in aborted)
+
+    exp = set(p for p in expected_paths if not below_aborted(p))
+    starts = dict((p, c) for p, c in starts.items() if not below_aborted(p))
+    ends = dict((p, c) for p, c in ends.items() if not below_aborted(p))
     for p in exp:
         s, en = starts.get(p, 0), ends.get(p, 0)
         if s != 1:
